@@ -187,7 +187,9 @@ fn execute_net(prop: &str, p: &net::NetProgram) -> RunInfo {
             let h2 = net::trace_hash(&res2.trace);
             info.events += res.ok.map_or(0, |o| o.1 as u64);
             info.sim_time_ns += u128::from(res.ok.map_or(0, |o| o.0));
-            if info.trace_hash != h2 || res.ok != res2.ok || res.errors != res2.errors {
+            if res.foreign || res2.foreign {
+                info.violate(Violation::new("C04", "same-process-rerun", "user code of an earlier simulation of this process ran inside a later one (events or state leaked between simulations)"));
+            } else if info.trace_hash != h2 || res.ok != res2.ok || res.errors != res2.errors {
                 let pos = res.trace.iter().zip(res2.trace.iter()).position(|(a, b)| a != b).unwrap_or(res.trace.len().min(res2.trace.len()));
                 info.violate(Violation::new("C04", "same-process-rerun", format!(
                     "two executions of the same seeded model in one process diverge at trace record #{pos}: {:?} vs {:?}; results {:?} vs {:?}",
